@@ -54,11 +54,12 @@ class World:
         self.events: List[Tuple] = []
         self.n_tmp = 0
         self.memo: Dict[Any, Any] = {}
-        self.lib_calls: List[Tuple[str, Dict[str, Any], Any]] = []
+        self.lib_calls: List[Tuple[str, Dict[str, Any], Any, Any]] = []  # (function, bound arguments, text naming them, text returned)
         self.argv: Dict[str, Any] = {}
         self.handles: List[Any] = []
         self.globals: Dict[str, Any] = {}
         self.line: Optional[int] = None  # line of the statement being evaluated (for sites)
+        self.categories: List[Any] = []  # category objects the adapter handed out (explanations: whose list was edited)
 
     def shutdown(self) -> None:
         """Interpreter exit: handles the program left open are flushed and closed."""
@@ -513,6 +514,7 @@ class AdapterStub:
                     continue
                 cat = CategoryStub(cname, attrs, rows)
                 cat._world = self.world
+                self.world.categories.append(cat)
                 c.append(cat)
             out.append(c)
         return out
@@ -733,11 +735,30 @@ class ArgparseStub:
         return FileTypeStub(self.world, mode)
 
 
+class StreamStub:
+    """sys.stdout / sys.stderr: messages to the user are no part of the files the rules look at."""
+
+    _folder_stub = True
+
+    def __init__(self, world: World, name: str):
+        self.world, self.name = world, name
+
+    def write(self, s):
+        if not isinstance(s, str):
+            raise TypeError(f"write() argument must be str, not {type(s).__name__}")
+        self.world.events.append(("message", self.name))
+        return len(s)
+
+    def flush(self):
+        return None
+
+
 class SysStub:
     _folder_stub = True
 
     def __init__(self, world: World):
         self.world = world
+        self.stdout, self.stderr = StreamStub(world, "stdout"), StreamStub(world, "stderr")
 
     def exit(self, status=None):
         raise SystemExit(status)
@@ -766,11 +787,22 @@ class HFrozenSet(frozenset):
         return iter(sorted(frozenset.__iter__(self), key=_arbitrary))
 
 
+def _print(*args, sep=" ", end="\n", file=None, flush=False):
+    """print: to a stream the program opened it is a write like any other; to the terminal it is a message."""
+    if file is not None:
+        if not hasattr(file, "write"):
+            raise AttributeError(f"'{type(file).__name__}' object has no attribute 'write'")
+        file.write(("" if sep is None else sep).join(str(x) if not getattr(x, "_folder_stub", False) else f"<{type(x).__name__}>" for x in args) + ("\n" if end is None else end))
+        if flush:
+            file.flush()
+    return None
+
+
 _XB: Dict[str, Any] = {
     "getattr": getattr,
     "hasattr": hasattr,
     "isinstance": isinstance,
-    "print": lambda *a, **k: None,
+    "print": lambda *a, **k: _print(*a, **k),
     "repr": repr,
     "iter": lambda x: list(x),
     "ord": ord,
@@ -1275,7 +1307,34 @@ class FuncEval(BlockEval):
                 raise Unknown("augmented assignment target")
         elif isinstance(st, ast.AugAssign):
             load = ast.Name(id=st.target.id, ctx=ast.Load())
-            self.env[st.target.id] = self.fold(ast.fix_missing_locations(ast.BinOp(left=load, op=st.op, right=st.value)))
+            cur = self.env.get(st.target.id)
+            if type(cur) is list and isinstance(st.op, (ast.Add, ast.Mult)):
+                # in place, as the language does it: every alias of the list sees the change
+                v = self.fold(st.value)
+                if isinstance(st.op, ast.Add):
+                    cur.extend(v)
+                else:
+                    cur[:] = cur * v
+            elif type(cur) in (dict, set, HSet) and isinstance(st.op, (ast.BitOr, ast.BitAnd, ast.Sub, ast.BitXor)):
+                v = self.fold(st.value)
+                if isinstance(st.op, ast.BitOr):
+                    cur.update(v)
+                elif type(cur) is dict:
+                    raise TypeError("unsupported operand type(s) for augmented assignment on dict")
+                elif isinstance(st.op, ast.BitAnd):
+                    cur.intersection_update(v)
+                elif isinstance(st.op, ast.Sub):
+                    cur.difference_update(v)
+                else:
+                    cur.symmetric_difference_update(v)
+            else:
+                self.env[st.target.id] = self.fold(ast.fix_missing_locations(ast.BinOp(left=load, op=st.op, right=st.value)))
+        elif isinstance(st, ast.Assign) and len(st.targets) == 1 and isinstance(st.targets[0], ast.Name) and type(self.env.get(st.targets[0].id)) is list:
+            old = self.env[st.targets[0].id]
+            super()._stmt(st)
+            new = self.env.get(st.targets[0].id)
+            if new is not old and type(new) is list:
+                self.rt.world.events.append(("rebound-list", st.targets[0].id, st.lineno, norm_(st), old))  # trace for explanations only
         elif isinstance(st, (ast.Import, ast.ImportFrom)):
             for a in st.names:
                 v = self.rt._import(a.name if isinstance(st, ast.Import) else (st.module or ""), None if isinstance(st, ast.Import) else a.name)
@@ -1596,11 +1655,26 @@ def _judge_doc(o: Outcome, want, cat, src, dst, text: Optional[str] = None) -> O
         return f"the result {_short(o.value)} is not the serialised document"
     d = doc_diff(got, want, cat, src, dst)
     if d is not None:
-        d += _row_hint(o, got, want, cat)
+        d += _row_hint(o, got, want, cat) + _alias_hint(o, got, cat)
         e = _event(o, "defaulted")
         if e is not None:
             d += f" - DataCategory.getValueOrDefault('{e[1]}', {e[2]}) hands out its default {e[4]!r} for the stored value {e[3]!r}: it treats '.', '?' and None as missing values, so mmCIF null markers are rewritten on the way"
     return d
+
+
+def _alias_hint(o: Outcome, got, cat) -> str:
+    """Explanation only: the written category declares fewer items than its rows have values - an item was added to a list
+    that is not the category's own."""
+    g = _find(got, cat)
+    if not g or o.world is None or not any(len(r) > len(g[1]) for r in g[2]):
+        return ""
+    out = f" - the rows of the written category have {max(len(r) for r in g[2])} values but only {len(g[1])} items are declared: the new item was added to a list that is not the category's own attribute list (only edits of the lists getAttributeList() / getRowList() hand out reach the writer; DataCategory(<object>, ...) with replace() installs nothing)"
+    for e in o.world.events:
+        if e[0] == "rebound-list" and any(e[4] is c._attributeNameList for c in o.world.categories):
+            o.hint_line = e[2]
+            out += f"; `{e[3]}` (line {e[2]}) binds `{e[1]}` to a new list, the category's list is no longer the one that is edited"
+            break
+    return out
 
 
 def _row_hint(o: Outcome, got, want, cat) -> str:
@@ -1794,11 +1868,17 @@ def _tag(name: str, fn: ast.FunctionDef, b: Dict[str, Any]) -> Tuple[Dict[str, A
     return b, f" <{name}(" + ", ".join(f"{k}={b[k]!r}" for k in b) + ")>\n\n"
 
 
-def _lib_stub(world: World, rt_holder: list, name: str, fn: ast.FunctionDef, tuple_result: bool):
+def _lib_stub(world: World, rt_holder: list, name: str, fn: ast.FunctionDef, tuple_result: bool, identity: bool = False):
+    """Stand-in for a library function.  It returns a text that names the arguments it received, or - `identity`, the class
+    'category / item not found' of the real functions - the very text it was handed (and an empty mapping)."""
+
     def call(*args, **kw):
         rt: Runtime = rt_holder[0]
         b, text = _tag(name, fn, rt.bind(fn, args, kw, rt.module_env))
-        world.lib_calls.append((name, b, text))
+        ret = b[next(iter(b))] if identity and b else text
+        world.lib_calls.append((name, b, text, ret))
+        if identity:
+            return (ret, {}) if tuple_result else ret
         return (text, {"<value>": "<symbol>"}) if tuple_result else text
 
     call._interpreted = True  # type: ignore[attr-defined]
@@ -1873,7 +1953,7 @@ def _str_change(raw: Any, val: Any) -> str:
 def _arg_changes(w: "World", opts: Dict[str, Any]) -> List[Tuple[str, str, str, Any, Any]]:
     """(library function, option, parameter, given, received) for every option that was given and reaches the library changed."""
     out = []
-    for name, b, _ in w.lib_calls:
+    for name, b, _, _ in w.lib_calls:
         for p, n in zip(list(b)[1:4], _CLI_OPTS.get(name, [])):
             if n in opts and (type(b[p]) is not type(opts[n]) or b[p] != opts[n]):
                 out.append((name, n, p, opts[n], b[p]))
@@ -1889,66 +1969,78 @@ def check_cli(chk, fi) -> Optional[str]:
     cov: set = set()
     entered: dict = {}
     why: Optional[str] = None
-    content = text_of(base_doc())
-    for inplace in (False, True):
-        for tag, opts, accept in CLI_CASES:
-            w = World()
-            inp = "doc.cif"
-            outp = inp if inplace else "out.cif"
-            w.files[inp] = content
-            if not inplace:
-                w.files[outp] = "<old content of the output file>"
-            before = dict(w.files)
-            w.argv = dict(opts, input=inp, output=outp)
-            holder: list = []
-            overrides = {"copy_from_to": _lib_stub(w, holder, "copy_from_to", funcs["copy_from_to"], False), "replace_value": _lib_stub(w, holder, "replace_value", funcs["replace_value"], True)}
-            try:
-                rt = Runtime(repo, tree, w, overrides, cov, entered)
-                holder.append(rt)
-                o = Outcome("return", rt.call_function(rt.funcs[fi.qualname], [], {}), w)
-            except Unknown as ex:
-                o = Outcome("unknown", str(ex), w)
-            except SystemExit as ex:
-                o = Outcome("exit", ex.code, w)
-            except RecursionError:
-                o = Outcome("unknown", "recursion", w)
-            except Exception as ex:
-                o = Outcome("raise", _scrub(f"{type(ex).__name__}: {ex}")[:160], w)
-            if o.kind == "unknown":
-                why = why or f"{tag}: {o.value}"
-                continue
-            rule = "cli-inplace-eval" if inplace else "cli-eval"
-            label = f"{tag}{' (output path = input path)' if inplace else ''}"
-            # close what the program left open (interpreter exit flushes), then look at the files
-            w.shutdown()
-            final = dict(w.files)
-            want: List[Optional[str]] = []
-            try:
-                for a in accept:
-                    if a is None:
-                        want.append(None)
-                    else:
-                        want.extend(_expected_texts(tree, a, content, opts, repo))
-            except (Unknown, TypeError) as ex:
-                why = why or f"{tag}: signature of the library function: {ex}"
-                continue
-            got = final.get(outp)
-            untouched = got == before.get(outp)
-            okay = (got in [x for x in want if x is not None] and o.kind == "return") or (None in want and untouched)
-            if not inplace and final.get(inp) != content:
-                chk.violation(rule, fi.where, f"{label}: the input file is modified (now {_short(final.get(inp))})", K(fi, f"{rule}:input:{tag}"))
-                continue
-            if okay:
-                what = "the output file holds exactly the text the library returns for the content of the input file and the given options" if not untouched or None not in want else "nothing is transformed and the output file is not touched"
-                chk.ok(rule, fi.where, f"{label}: {what}")
-                continue
-            tr = next((e for e in w.events if e[0] == "truncate" and e[1] == outp), None)
-            rd = next((i for i, e in enumerate(w.events) if e[0] == "read" and e[1] == inp), None)
-            early = tr is not None and (rd is None or w.events.index(tr) < rd)
-            changed = _arg_changes(w, opts)
-            conv = next((e for e in w.events if e[0] == "converted" and changed and e[1] == changed[0][1]), None)
-            site = _site(fi, tr[2]) if early else (_site(fi, conv[4]) if conv is not None else fi.where)
-            chk.violation(rule, site, f"{label}: " + _explain_cli(o, w, got, want, before, inp, outp, content, inplace, opts), K(fi, f"{rule}:{tag}"), expected=[_brief(x) for x in want], found=_brief(got))
+    # classes of the library result: a new text / the input text itself ('left untouched': category or item not found) / the
+    # empty text of an empty input file.  What the tool does with the result must not depend on which one it is.
+    modes = [(False, text_of(base_doc()), ""), (True, text_of(base_doc()), "; the library returns the input text unchanged (category or item not found)"), (True, "", "; empty input file, the library returns the empty text"), (False, text_of(base_doc()), "; the output path does not exist yet")]
+    for identity, content, mode_label in modes:
+        fresh = "does not exist" in mode_label
+        for inplace in ((False,) if fresh else (False, True)):
+            for tag, opts, accept in CLI_CASES:
+                w = World()
+                inp = "doc.cif"
+                outp = inp if inplace else "out.cif"
+                w.files[inp] = content
+                if not inplace and not fresh:
+                    w.files[outp] = "<old content of the output file>"
+                before = dict(w.files)
+                w.argv = dict(opts, input=inp, output=outp)
+                holder: list = []
+                overrides = {"copy_from_to": _lib_stub(w, holder, "copy_from_to", funcs["copy_from_to"], False, identity), "replace_value": _lib_stub(w, holder, "replace_value", funcs["replace_value"], True, identity)}
+                try:
+                    rt = Runtime(repo, tree, w, overrides, cov, entered)
+                    holder.append(rt)
+                    o = Outcome("return", rt.call_function(rt.funcs[fi.qualname], [], {}), w)
+                except Unknown as ex:
+                    o = Outcome("unknown", str(ex), w)
+                except SystemExit as ex:
+                    o = Outcome("exit", ex.code, w)
+                except RecursionError:
+                    o = Outcome("unknown", "recursion", w)
+                except Exception as ex:
+                    o = Outcome("raise", _scrub(f"{type(ex).__name__}: {ex}")[:160], w)
+                if o.kind == "unknown":
+                    why = why or f"{tag}: {o.value}"
+                    continue
+                rule = "cli-inplace-eval" if inplace else "cli-eval"
+                label = f"{tag}{' (output path = input path)' if inplace else ''}{mode_label}"
+                tag = tag + mode_label  # obligation keys
+                # close what the program left open (interpreter exit flushes), then look at the files
+                w.shutdown()
+                final = dict(w.files)
+                want: List[Optional[str]] = []
+                try:
+                    for a in accept:
+                        if a is None:
+                            want.append(None)
+                        else:
+                            want.extend(_expected_texts(tree, a, content, opts, repo))
+                except (Unknown, TypeError) as ex:
+                    why = why or f"{tag}: signature of the library function: {ex}"
+                    continue
+                got = final.get(outp)
+                untouched = got == before.get(outp)
+                if identity and w.lib_calls:
+                    # the library was called: with the arguments that were given, and the file holds what it returned (= the input text)
+                    okay = o.kind == "return" and got == w.lib_calls[-1][3] and w.lib_calls[-1][2] in [x for x in want if x is not None]
+                elif identity:
+                    okay = None in want and untouched
+                else:
+                    okay = (got in [x for x in want if x is not None] and o.kind == "return") or (None in want and untouched)
+                if not inplace and final.get(inp) != content:
+                    chk.violation(rule, fi.where, f"{label}: the input file is modified (now {_short(final.get(inp))})", K(fi, f"{rule}:input:{tag}"))
+                    continue
+                if okay:
+                    what = "the output file holds exactly the text the library returns for the content of the input file and the given options" if (w.lib_calls if identity else (not untouched or None not in want)) else "nothing is transformed and the output file is not touched"
+                    chk.ok(rule, fi.where, f"{label}: {what}")
+                    continue
+                tr = next((e for e in w.events if e[0] == "truncate" and e[1] == outp), None)
+                rd = next((i for i, e in enumerate(w.events) if e[0] == "read" and e[1] == inp), None)
+                early = tr is not None and (rd is None or w.events.index(tr) < rd)
+                changed = _arg_changes(w, opts)
+                conv = next((e for e in w.events if e[0] == "converted" and changed and e[1] == changed[0][1]), None)
+                msg = _explain_cli(o, w, got, want, before, inp, outp, content, inplace, opts)
+                site = _site(fi, tr[2]) if early else (_site(fi, conv[4]) if conv is not None else _site(fi, o.hint_line))
+                chk.violation(rule, site, f"{label}: " + msg, K(fi, f"{rule}:{tag}"), expected=[_brief(x) for x in want] if not (identity and w.lib_calls) else [_brief(w.lib_calls[-1][3])], found=_brief(got))
     if why is None:
         miss = uncovered(cov, [f for n, f in funcs.items() if n == fi.qualname or (n in entered and n not in ("copy_from_to", "replace_value"))])
         if miss:
@@ -1992,17 +2084,20 @@ def _explain_cli(o: Outcome, w: World, got, want, before, inp, outp, content, in
         return head + f"no library function is called for these options; the output file holds {_short(got)}"
     if tr is not None and rd is not None and tr < rd and not inplace:
         pass
-    texts = [c[2] for c in calls]
+    texts = [c[3] for c in calls]  # what the library returned
     changed = _arg_changes(w, opts or {})
     if changed and (got in texts or o.kind != "return"):
         name, n, p, raw, val = changed[0]
         conv = next((e for e in ev if e[0] == "converted" and e[1] == n), None)
         how = f" - `add_argument({n!r}, type={conv[5]})` (line {conv[4]}) converts the text while the arguments are parsed" if conv is not None else ""
         return head + f"option `{n} {raw!r}` reaches {name} as {p}={_short(val)} ({_str_change(raw, val)}){how}: the file written is not what {name} returns for the arguments that were given"
-    if got in texts or (isinstance(got, str) and any(t in got for t in texts)):
+    if (got in texts and not all(c[3] is not c[2] and c[3] == got for c in calls)) or (isinstance(got, str) and got not in texts and any(t and t in got for t in texts)):
         if got in texts:
             return head + f"the library is called with other arguments than the command line gives: {_short(got)} (expected {_short(next(x for x in want if x is not None))})"
         return head + f"the output file holds {_short(got)}, which is not exactly the text the library returned ({_short(texts[-1])}): something else is written as well, or the old content is kept"
     if got == before.get(outp):
-        return head + f"the library result {_short(texts[-1])} is not written: the output file is unchanged"
+        last = next((e for e in reversed(ev) if e[0] == "if"), None)
+        how = f" - the tool ends after `{last[3]}` (line {last[1]}) is {last[2]}: the result is written on some paths of the tool only" if (last is not None and o.kind in ("return", "exit")) else ""
+        o.hint_line = last[1] if how else None
+        return head + f"the library result {_short(texts[-1])} is not written: the output file {'still holds ' + _short(got) if got is not None else 'does not exist'}{how}"
     return head + f"the output file holds {_short(got)} instead of the library result {_short(texts[-1])}"
